@@ -705,3 +705,34 @@ Theorem C20_hist_sum_refuted :
   shown KGauge (sh x) tA + retired_of KGauge (sh x) tA + vattributed x tA = 0 /\ vemitted_to c w1_progs tA = 5.
 Proof. vm_compute. repeat split; reflexivity. Qed.
 Print Assumptions C20_hist_sum_refuted.
+
+(* ---------------------------------------------------------------- what a snapshot walk can contain *)
+(* every step of an AppendSnapshot walk, concurrent with anything: the entry it appends is the CURRENT tuple and value of a series
+   that is in the series map at that very moment; its key lies strictly above every key visited before (no series twice); the
+   walk writes nothing (ss' = ss, and an auxiliary step cannot write the metric); at the end the collected list is returned *)
+Theorem C20_x_snapshot_step_sound : forall mode s ss a cur acc ss' a',
+  a_pc a = SSn2 cur acc -> xstep_aux mode s ss a = Some (ss', a') ->
+  ss' = ss /\
+  ((exists k id h, In (k, id) (smap s) /\ above cur k = true /\ get_handle s id = Some h /\
+                   a_pc a' = SSn2 (Some k) ((h_tuple h, h_val h) :: acc)) \/
+   (exists k id, In (k, id) (smap s) /\ get_handle s id = None /\ a_pc a' = SSn2 (Some k) acc) \/
+   (a_pc a' = SIdle /\ a_snaps a' = rev acc :: a_snaps a)).
+Proof. exact snapshot_step_sound. Qed.
+Print Assumptions C20_x_snapshot_step_sound.
+
+(* a snapshot taken after the clients are done returns the entries of [snapshot] (here: in key order) *)
+Example C20_x_snapshot_nonvacuous :
+  let c := cfg_of Repaired 3 in
+  let x := xrun c SelectDefault (xsys0 [[OResolve tB; OEmitH 0 EAdd 2; OResolve tA; OEmitH 1 EAdd 5]] [[SSnapshot]])
+             (repeat (true, 0%nat) 20 ++ repeat (false, 0%nat) 5) in
+  xclients_done x = true /\
+  match nth_error (x_aux x) 0 with
+  | Some a => afinished a = true /\ length (a_snaps a) = 1%nat /\
+              (forall e, In e (hd [] (a_snaps a)) <-> In e (snapshot (x_sh x)))
+  | None => False
+  end.
+Proof.
+  vm_compute. split; [reflexivity|]. split; [reflexivity|]. split; [reflexivity|].
+  intros e; split; intros [H|[H|[]]]; subst; auto.
+Qed.
+Print Assumptions C20_x_snapshot_nonvacuous.
